@@ -10,6 +10,7 @@ import (
 	"os"
 	"regexp"
 	"strings"
+	"time"
 
 	fpgo "github.com/TeaEntityLab/fpGo/v2"
 	"github.com/TeaEntityLab/fpGo/v2/zzverif/vsched"
@@ -111,7 +112,33 @@ func ops() []op {
 			q.ClearNodePool()
 			return "ok", "ok"
 		}},
+		// the environment's answer to the container's clock reads (if it makes any): nothing happens for an hour
+		{name: "Idle1h", run: func(q *fpgo.LinkedListQueue[int], m *[]int, v int) (string, string) {
+			clock = clock.Add(time.Hour)
+			pendingIdle = time.Hour
+			return "ok", "ok"
+		}},
+		{name: "Idle2s", run: func(q *fpgo.LinkedListQueue[int], m *[]int, v int) (string, string) {
+			clock = clock.Add(2 * time.Second)
+			if pendingIdle < 2*time.Second {
+				pendingIdle = 2 * time.Second
+			}
+			return "ok", "ok"
+		}},
 	}
+}
+
+// clock: what the container reads when it asks for the time (sync-only instrumentation routes time.Now / Since / Until
+// of the library to vsched.ManualNow): a microsecond per reading, plus what the Idle operations add.
+var clock time.Time
+
+// pendingIdle: the idle time since the last container operation (part of the state key: a container that looks at the
+// clock behaves differently after it; further idling in an already idle state adds nothing beyond the longest period)
+var pendingIdle time.Duration
+
+func manualNow() time.Time {
+	clock = clock.Add(time.Microsecond)
+	return clock
 }
 
 var valRe = regexp.MustCompile(`\b1[0-9]{3}\b`)
@@ -140,11 +167,16 @@ type outcome struct {
 
 // replay runs a history (op indices) on a fresh object; returns the outcome after the last op.
 func replay(all []op, hist []int) (o outcome) {
+	clock = time.Date(2024, 1, 1, 0, 0, 0, 0, time.UTC)
 	q := fpgo.NewLinkedListQueue[int]()
 	var m []int
 	lib.Beat(hist)
+	pendingIdle = 0
 	for i, oi := range hist {
 		var got, want string
+		if !strings.HasPrefix(all[oi].name, "Idle") {
+			pendingIdle = 0
+		}
 		p := lib.Catch(func() { got, want = all[oi].run(q, &m, 1000+i) })
 		if p != "" {
 			o.fail = fmt.Sprintf("step %d %s: %s", i, all[oi].name, p)
@@ -167,7 +199,7 @@ func replay(all []op, hist []int) (o outcome) {
 		o.fail, o.clause = "Count: "+p, "panic"
 	}
 	if o.fail == "" {
-		o.key = canonKey(q, m)
+		o.key = canonKey(q, m) + fmt.Sprint(" idle=", pendingIdle)
 		o.modelLn = len(m)
 	}
 	return
@@ -185,6 +217,8 @@ func main() {
 	r := lib.NewReport("C06")
 	defer r.Guard()
 	all := ops()
+	clock = time.Date(2024, 1, 1, 0, 0, 0, 0, time.UTC)
+	vsched.ManualNow = manualNow
 	maxItems, maxDepth := 3, 14
 	if r.Tier == "thorough" {
 		maxItems, maxDepth = 5, 40
